@@ -112,7 +112,7 @@ package xsync
 //@   effect blocking nolocks
 //@   modifies allmem, tview, slotb, sloti, tbl, ridx, pos, clen, occ
 //@   oncall copyBucket: {C03,C11} source.current: arg0 == root(as(currenttable(), "*mapTable"), u64(i)) && arg1 == newTable
-//@   oncall addSizePlain: {C08,C11} recount: arg2 == lastret("copyBucket", 0) && arg0 == newTable && arg1 == u64(i)
+//@   oncall addSizePlain: {C08,C11} recount: arg2 == lastret("copyBucket", 0) && arg0 == newTable
 //@   loop for.loop: invariant shape: newTable != nil && tblShape(newTable) && tblShape(table) && table != nil && 0 <= i
 //@   ensures assumed private keeps: hint != 2 ==> mapRIx(m) && tview[tab(m)] == old(tview[tab(m)])
 //@   ensures {C13} monitor.no-lost-wakeup: monitorOK()
@@ -266,7 +266,7 @@ package xsync
 //@   effect blocking nolocks
 //@   modifies allmem, tviewOf, slotbOf, slotiOf, tbl, ridx, pos, clen, occ
 //@   oncall copyBucketOf: {C04,C11} source.current: arg0 == rootO(as(currenttable(), "*mapOfTable"), u64(i)) && arg1 == newTable
-//@   oncall addSizePlain: {C08,C11} recount: arg2 == lastret("copyBucketOf", 0) && arg0 == newTable && arg1 == u64(i)
+//@   oncall addSizePlain: {C08,C11} recount: arg2 == lastret("copyBucketOf", 0) && arg0 == newTable
 //@   loop for.loop: invariant shape: newTable != nil && tblShapeOf(newTable) && tblShapeOf(table) && table != nil && 0 <= i
 //@   ensures assumed private keeps: hint != 2 ==> mapOfRIx(m) && tviewOf[tabOf(m)] == old(tviewOf[tabOf(m)])
 //@   ensures {C13} monitor.no-lost-wakeup: monitorOK()
